@@ -83,15 +83,31 @@ Qed.
 Lemma deg2rad_180 : deg2rad 180 = PI.
 Proof. unfold deg2rad. field. Qed.
 
-(* rotation vectors: as_rotvec of the polar form (sin(phi) u, cos(phi)), 0 < phi < pi, is 2 phi u; from_rotvec of it is the polar form *)
-Lemma as_rotvec_polar (u : vecR) (phi : R) : 0 < phi < PI -> as_rotvec (polar u phi) = vscal RRing (2 * phi) u.
+(* atan2(sin phi, cos phi) = phi on [0, pi] *)
+Lemma atan2_sin_cos (phi : R) : 0 <= phi <= PI -> atan2 (sin phi) (cos phi) = phi.
 Proof.
-  intros Hphi. unfold as_rotvec, polar. cbn [q3 q0 q1 q2 fst snd]. rewrite acos_cos by lra.
-  destruct (Req_EM_T (2 * phi) 0) as [E|E]; [lra|].
-  replace (2 * phi / 2) with phi by field.
-  assert (Hs : sin phi <> 0) by (pose proof (sin_gt_0 phi (proj1 Hphi) (proj2 Hphi)); lra).
-  dvec u. unf. toR'. pair_split; field; assumption.
+  intros H. unfold atan2. pose proof (sin2_cos2 phi) as S. unfold Rsqr in S.
+  replace (cos phi * cos phi + sin phi * sin phi) with 1 by lra. rewrite sqrt_1.
+  assert (0 <= sin phi) by (apply sin_ge_0; lra).
+  destruct (Rlt_dec (sin phi) 0); [lra|]. replace (cos phi / 1) with (cos phi) by field. apply acos_cos. assumption.
 Qed.
-Theorem rotvec_roundtrip (u : vecR) (phi : R) : dot3 RRing u u = 1 -> 0 < phi < PI ->
+(* rotation vectors: as_rotvec of the polar form (sin(phi) u, cos(phi)), |u| = 1, 0 <= phi < pi, is 2 phi u (phi = 0: the sinc branch);
+   from_rotvec of it is the polar form again *)
+Lemma as_rotvec_polar (u : vecR) (phi : R) : dot3 RRing u u = 1 -> 0 <= phi < PI -> as_rotvec (polar u phi) = vscal RRing (2 * phi) u.
+Proof.
+  intros Hu Hphi. unfold as_rotvec.
+  assert (Hs0 : 0 <= sin phi) by (apply sin_ge_0; lra).
+  assert (Hn : sqrt (dot3 RRing (qvec RRing (polar u phi)) (qvec RRing (polar u phi))) = sin phi).
+  { replace (dot3 RRing (qvec RRing (polar u phi)) (qvec RRing (polar u phi))) with (Rsqr (sin phi)).
+    - apply sqrt_Rsqr. assumption.
+    - dvec u. unfold polar, Rsqr. unf. toR'. transitivity (sin phi * sin phi * (k * k + k0 * k0 + k1 * k1)); [rewrite Hu|]; ring. }
+  rewrite Hn. replace (q3 (polar u phi)) with (cos phi) by reflexivity. rewrite atan2_sin_cos by lra. cbv zeta.
+  destruct (Req_EM_T (2 * phi) 0) as [E|E].
+  - assert (phi = 0) by lra. subst phi. unfold polar. rewrite sin_0. dvec u. unf. toR'. pair_split; ring.
+  - replace (2 * phi / 2) with phi by field.
+    assert (Hs : sin phi <> 0) by (assert (0 < phi) by lra; pose proof (sin_gt_0 phi H (proj2 Hphi)); lra).
+    unfold polar. dvec u. unf. toR'. pair_split; field; assumption.
+Qed.
+Theorem rotvec_roundtrip (u : vecR) (phi : R) : dot3 RRing u u = 1 -> 0 <= phi < PI ->
   from_rotvec (as_rotvec (polar u phi)) = polar u phi.
 Proof. intros Hu Hphi. rewrite as_rotvec_polar, from_rotvec_polar by assumption. f_equal. field. Qed.
